@@ -34,7 +34,13 @@ def r13_1(ctx):
         for ef in ctx.eff.of(g):
             if ef.kind in ("store", "mut", "del") and ((ef.attr == "placed_workplace" and ef.cls in (COMPONENT, None)) or (ef.attr == "placed_component_list" and ef.cls in (WORKPLACE, None))):
                 ctx.instance(construct(g, f"writer:{ef.attr}"))
-                if (g.cls, g.name) not in allowed:
+                ok = (g.cls, g.name) in allowed
+                if not ok and g.cls is None and getattr(ef, "op", None) == "setattr":
+                    # a shared helper that assigns attributes by name: the writers are the callers that pass this name
+                    from ..effects import callers_passing
+                    who = callers_passing(g, ef.attr)
+                    ok = bool(who) and all(tuple(q.split(".", 1)) in allowed for q in who if "." in q) and all("." in q for q in who)
+                if not ok:
                     ctx.violation(construct(g, f"writes:{ef.attr}"), ef.loc, f"{g.qualname} writes {ef.attr} directly (`{ast.unparse(ef.node)[:60]}`): location and contents can get out of step")
     ctx.end()
 
@@ -306,6 +312,8 @@ def r13_5(ctx):
         n += 1
         F, T = s.facility, s.task
         ctx.instance(construct(f, f"facility-site@{s.ev['task<-facility'].node.lineno}"))
+        if isinstance(F, Obj) and F.name.startswith("<None>."):
+            continue   # the path on which the task has no component: reading its placed_workplace raises AttributeError before this site
         if not (isinstance(F, Obj) and isinstance(T, Obj) and F.name.replace("task.", T.name + ".").startswith(f"{T.name}.target_component.placed_workplace.facility_list[")):
             ctx.violation(construct(f, "facility-provenance"), s.ev["task<-facility"].loc, "a facility is allocated that is not drawn from task.target_component.placed_workplace.facility_list")
     ctx.require(n >= 1, "no facility allocation site")
